@@ -679,5 +679,11 @@ func genGoMiniAll() []*leanFile {
 			"partition.truncateUncommitted", "partition.truncateToHW", "partition.inReplicas", "partition.inISR",
 			"partition.RemoveFromISR", "partition.AddToISR"}},
 		[]string{sv + "partition.go"})})
+	out = append(out, &leanFile{name: "GoFailover", raw: genGoMini("GoFailover",
+		[]string{sv + "failover.go", sv + "partition.go"},
+		map[string][]string{
+			sv + "failover.go":  {"failoverStatus.report", "failoverStatus.cancel", "partitionFailover.Quorum", "partitionFailover.IsWitness", "partitionFailover.Timeout"},
+			sv + "partition.go": {"partition.inISR", "partition.ISRSize", "partition.GetLeader"}},
+		[]string{sv + "failover.go", sv + "partition.go"})})
 	return out
 }
